@@ -39,7 +39,10 @@ structure CrashSt where
 
 /-- ids family (C12) -/
 structure IdsSt where
-  seen : List String := []
+  seen : List String := []                       -- ids handed out by `id_new`
+  forced : Bool := false                         -- File::forceId has been called since the last snapshot
+  prev : List (String × String) := []            -- the previous `id_all` snapshot: entity key ↦ id
+  ever : List (String × String) := []            -- every id seen in a snapshot ↦ the key it belonged to
 
 structure FileFamSt where
   modes : ModesSt := {}
